@@ -98,7 +98,7 @@ func main() {
 	}
 	budget := 100 * time.Second
 	if *tier == "thorough" {
-		budget = 25 * time.Minute
+		budget = 40 * time.Minute
 	}
 	if s := os.Getenv("VERIF_BUDGET_S"); s != "" {
 		if n, err := strconv.Atoi(s); err == nil {
